@@ -21,6 +21,7 @@ import random
 from vf.enc import dwarf as D
 from vf.enc import c13_tables as T
 from vf.choose import RndChooser, composite_from
+from vf import textpool
 
 ID = 'C13'
 RULE = ('(a) .debug_aranges: 0-8 sets (32-bit DWARF format, version 2, address size 4/8 incl. mixed in one section, set starts kept at '
@@ -1001,11 +1002,13 @@ def gen_aranges(ch, tier):
     return case
 
 
-ALPHABETS = ['abcdefghijklmnopqrstuvwxyzABCXYZ_0123456789', 'abc_:<>(), *&~', 'äöüßéèñÜ', 'строка', '变量名称函数', '𝒳𝓎😀𐍈', 'aé变😀_']
+ALPHABETS = ['abcdefghijklmnopqrstuvwxyzABCXYZ_0123456789', 'abc_:<>(), *&~', 'äöüßéèñÜ', 'строка', '变量名称函数', '𝒳𝓎😀𐍈', 'aé变😀_', textpool.SPECIAL_ALPHABET]
 
 
 def gen_name(ch):
     k = ch.int(0, 9)
+    if k == 2 and ch.bool(0.5):
+        return ch.choice(textpool.SPECIAL_NAMES)
     if k == 0:
         return ch.choice(['main', 'std::vector<int, std::allocator<int> >::operator[]', 'operator<<', '_ZN3foo3barEv', 'a', '~T', ' '])
     alpha = ch.choice(ALPHABETS)
